@@ -460,3 +460,80 @@ func TestTinkAPI(t *testing.T) {
 		})
 	})
 }
+
+// TestTinkAPIAllSets visits EVERY parameter set through the Tink key and keyset API once per run
+// (the generated TestTinkAPI down-weights the slow 's' sets, so a slip confined to one set's
+// wiring could be missed there): the Tink signer's output must verify under the independent
+// implementation of the key's own parameter set and under the Tink verifier, and a
+// reference-made signature must be accepted. Sharded by parameter set.
+func TestTinkAPIAllSets(t *testing.T) {
+	shard, nsh := int(evid.EnvInt("VERIF_SHARD", 0)), int(evid.EnvInt("VERIF_NSHARDS", 1))
+	seed := uint64(evid.EnvInt("VERIF_SEED", 1))
+	seedEntropy(seed)
+	for i, p := range sets {
+		if i%nsh != shard {
+			continue
+		}
+		n := p.n()
+		mat := gen.Expand(seed+uint64(i), 3*n+40)
+		rsk, rpk := p.r.KeyGenInternal(mat[:n], mat[n:2*n], mat[2*n:3*n])
+		msg := mat[3*n:]
+		as := apiSetOf(p)
+		for _, variant := range []string{tk.Tink, tk.NoPrefix} {
+			tv := map[string]slhdsa.Variant{tk.Tink: slhdsa.VariantTink, tk.NoPrefix: slhdsa.VariantNoPrefix}[variant]
+			params, err := slhdsa.NewParameters(as.hash, as.keySize, as.sigType, tv)
+			if err != nil {
+				t.Fatalf("%s: NewParameters: %v", p.name, err)
+			}
+			id := uint32(0)
+			if variant == tk.Tink {
+				id = 0x01020304 + uint32(i)
+			}
+			priv, err := slhdsa.NewPrivateKey(tk.Secret(rsk), id, params)
+			if err != nil {
+				t.Fatalf("%s: NewPrivateKey: %v", p.name, err)
+			}
+			pub := tk.Must(priv.PublicKey()).(*slhdsa.PublicKey)
+			if !bytes.Equal(pub.KeyBytes(), rpk) {
+				t.Fatalf("%s: public key %x, reference %x", p.name, pub.KeyBytes(), rpk)
+			}
+			var signer tink.Signer
+			var verifier tink.Verifier
+			route := "key"
+			if variant == tk.Tink {
+				route = "handle"
+				h := tk.Must(tk.HandleFromKey(priv))
+				signer = tk.Must(signature.NewSigner(h))
+				verifier = tk.Must(signature.NewVerifier(tk.Must(h.Public())))
+			} else {
+				signer = tk.Must(slhdsa.NewSigner(priv, internalapi.Token{}))
+				verifier = tk.Must(slhdsa.NewVerifier(pub, internalapi.Token{}))
+			}
+			cs := fmt.Sprintf("%s variant=%s id=%#x route=%s sk=%x M=%x", p.name, variant, id, route, rsk, msg)
+			prefix := tk.Prefix(variant, id)
+			sig, err := signer.Sign(msg)
+			if err != nil {
+				t.Fatalf("%s: Sign: %v", cs, err)
+			}
+			if !bytes.HasPrefix(sig, prefix) || len(sig) != len(prefix)+p.r.SigSize {
+				t.Fatalf("%s: signature has %d bytes; want prefix %x followed by %d bytes", cs, len(sig), prefix, p.r.SigSize)
+			}
+			if !p.r.Verify(msg, sig[len(prefix):], []byte{}, rpk) {
+				t.Fatalf("%s: the Tink signer's output is not a valid %s signature for the key under the independent implementation", cs, p.name)
+			}
+			if err := verifier.Verify(sig, msg); err != nil {
+				t.Fatalf("%s: Tink verifier rejects the Tink signer's output: %v", cs, err)
+			}
+			if !p.small || variant == tk.Tink {
+				ref := append(append([]byte{}, prefix...), tk.Must(p.r.Sign(msg, []byte{}, rsk, nil))...)
+				if err := verifier.Verify(ref, msg); err != nil {
+					t.Fatalf("%s: Tink verifier rejects a reference-made signature: %v", cs, err)
+				}
+			}
+			if err := verifier.Verify(sig, append(append([]byte{}, msg...), 1)); err == nil {
+				t.Fatalf("%s: signature accepted for a different message", cs)
+			}
+			evid.Case("api-all-sets/"+p.name+"/"+variant, true, evid.NewH().S(p.name).S(variant).B(rsk).Sum(), func() any { return cs[:min(len(cs), 200)] })
+		}
+	}
+}
